@@ -15,6 +15,10 @@ import Nstd.Callback.Model
                  uid of the snapshot, in order, is invoked at its turn iff it is still live
                  (an emission of a destroyed emitter invokes nothing any more)
 
+  The listener's view `lsig` is kept alongside (connect appends, disconnect removes the oldest entry
+  of that signal/slot, destroying clears); `Props.listener_side_exact` shows it is consistent with the
+  live lists and is what the listener-side bookkeeping of the code holds, in order.
+
   Nothing here mentions slot states, dirty flags, activation frames or deferred removal.
 -/
 namespace Nstd.Callback.Spec
@@ -34,11 +38,19 @@ structure Sig where
 
 def Sig.empty : Sig := { live := [], outerStart := none, depth := 0 }
 
+/-- `lsig l e` = the listener's view: the live connections of listener `l` to emitter `e` as
+    (uid, signal, slot), in order of birth -/
 structure SState where
   sig : Nat → Nat → Sig
+  lsig : Nat → Nat → List (Nat × Nat × Nat)
   eAlive : Nat → Bool
   lAlive : Nat → Bool
   clock : Nat
+
+/-- remove the first (= oldest) element satisfying `p` -/
+def rmFirst {α : Type} (p : α → Bool) : List α → List α
+  | [] => []
+  | a :: as => if p a then as else a :: rmFirst p as
 
 def SState.setSig (s : SState) (e g : Nat) (x : Sig) : SState :=
   { s with sig := fun e' g' => if e' = e ∧ g' = g then x else s.sig e' g' }
@@ -46,6 +58,7 @@ def SState.setSig (s : SState) (e g : Nat) (x : Sig) : SState :=
 def connect (e g l sl : Nat) (s : SState) : SState :=
   let x := s.sig e g
   { (s.setSig e g { x with live := x.live ++ [{ uid := s.clock, receiver := l, slot := sl }] }) with
+    lsig := fun l' e' => if l' = l ∧ e' = e then s.lsig l e ++ [(s.clock, g, sl)] else s.lsig l' e'
     clock := s.clock + 1 }
 
 /-- remove the oldest connection of receiver `l` / slot `sl` -/
@@ -55,14 +68,17 @@ def removeOldest (l sl : Nat) : List Conn → List Conn
 
 def disconnect (e g l sl : Nat) (s : SState) : SState :=
   let x := s.sig e g
-  s.setSig e g { x with live := removeOldest l sl x.live }
+  { (s.setSig e g { x with live := removeOldest l sl x.live }) with
+    lsig := fun l' e' => if l' = l ∧ e' = e then rmFirst (fun t => t.2.1 == g && t.2.2 == sl) (s.lsig l e) else s.lsig l' e' }
 
 def delL (l : Nat) (s : SState) : SState :=
   { s with lAlive := fun l' => if l' = l then false else s.lAlive l'
+           lsig := fun l' e => if l' = l then [] else s.lsig l' e
            sig := fun e g => { s.sig e g with live := (s.sig e g).live.filter (fun c => c.receiver ≠ l) } }
 
 def delE (e : Nat) (s : SState) : SState :=
   { s with eAlive := fun e' => if e' = e then false else s.eAlive e'
+           lsig := fun l e' => if e' = e then [] else s.lsig l e'
            sig := fun e' g => if e' = e then Sig.empty else s.sig e' g }
 
 /-- an emission in progress is identified by (emitter, signal); its position is the rest of
@@ -107,6 +123,6 @@ def machine : Machine SState (Nat × Nat) (List Nat) where
 
 /-- nothing connected, no emission in progress, every object exists -/
 def SState.fresh : SState :=
-  { sig := fun _ _ => Sig.empty, eAlive := fun _ => true, lAlive := fun _ => true, clock := 0 }
+  { sig := fun _ _ => Sig.empty, lsig := fun _ _ => [], eAlive := fun _ => true, lAlive := fun _ => true, clock := 0 }
 
 end Nstd.Callback.Spec
